@@ -104,7 +104,8 @@ class Ctx:
         if key in self._seen_keys:
             return True
         self._seen_keys.add(key)
-        d = os.path.join(VERIF, "replays", self.prop)
+        # runs against an alternative tree (bin/seedtest) keep their files apart
+        d = os.path.join(VERIF, "replays", self.prop) if REPO == "/repo" else os.path.join(VERIF, "replays", "_alt", self.prop)
         os.makedirs(d, exist_ok=True)
         h = hashlib.sha1(key.encode("utf-8", "replace")).hexdigest()[:12]
         path = os.path.join(d, h + ".json")
@@ -136,7 +137,9 @@ class Ctx:
                                    for k, (e, c) in sorted(self.known_hits.items())],
             "notes": self.notes,
         }
-        d = os.path.join(VERIF, "evidence")
+        # evidence/<id>.json describes runs against /repo itself; a run against another tree
+        # (VERIF_REPO, bin/seedtest) must not overwrite it
+        d = os.path.join(VERIF, "evidence") if REPO == "/repo" else os.path.join(VERIF, "replays", "_alt", "evidence")
         os.makedirs(d, exist_ok=True)
         tmp = os.path.join(d, ".%s.json.tmp" % self.prop)
         with open(tmp, "w") as f:
